@@ -116,6 +116,56 @@ def job_cmdline(j):
     return " ".join(a + [j["dir"]] + list(j.get("args", [])))
 
 
+def run_replay(prop, path):
+    """./check <prop> --replay <dir>: the recorded input once more, against /repo's current tree:
+    the package is put back into a scratch module with the helper library, the real moq (through
+    `go list`, as a user would run it) and the model are run on it and the property's oracle
+    decides.  Exit 1 + VIOLATION line while the input still fails, exit 0 once it does not."""
+    import tempfile
+    from . import gen, pool
+    rj = os.path.join(path, "replay.json")
+    if not (os.path.isdir(path) and os.path.exists(rj) and os.path.isdir(os.path.join(path, "module"))):
+        return None     # not an input replay (an unproved.json, a CLI or runtime replay): run the check
+    info = json.load(open(rj))
+    job = dict(info.get("job") or {})
+    if not job.get("dir"):
+        return None
+    cdir, binfo = build.ensure_built(log=lambda s: print("[check]", s))
+    root = tempfile.mkdtemp(prefix="moqverif-replay-")
+    try:
+        gen.write_library(root)
+        corr.copy_corpus(root)
+        shutil.copytree(os.path.join(path, "module"), root, dirs_exist_ok=True)
+        job["id"] = "replay"
+        env = dict(pool.GOENV, VERIF_EXPORTS=corr.export_list(root))
+        harness, driver = os.path.join(cdir, "harness"), os.path.join(cdir, "driver")
+        f = pool.run_jobs(harness, root, [{"job": job, "fmts": [], "facts": True}], env=env)
+        model = pool.run_driver(driver, [r["case"] for r in f if r and r.get("case")])
+        r = pool.run_jobs(harness, root, [{"job": job, "fmts": ["noop", "", "goimports"], "oracle": True, "reps": 8}], env=env, timeout=180)
+        rec = corr.make_records([job], f, r, model)[0]
+        v = record_violation(prop, rec)
+        dis = record_disagreement(prop, rec)
+        print("[check] replay of %s: moq %s" % (path, job_cmdline(job)))
+        if v:
+            for kf in load_known().get("findings", []):
+                w = kf["witness"]
+                if kf["property"] == prop and w["dir"] == job.get("dir") and list(w["args"]) == list(job.get("args", [])) \
+                        and w.get("pkg", "") == (job.get("pkg") or "") and re.search(kf["signature"], v):
+                    print("KNOWN-FINDING: property=%s %s (%s: moq %s)" % (prop, kf["what"], kf["id"], job_cmdline(job)))
+                    return 0
+            print("[check] %s: %s" % (prop, v[:400]))
+            print("VIOLATION property=%s replay=%s" % (prop, path))
+            return 1
+        if dis:
+            print("[check] %s: model and real moq still differ on this input: %s" % (prop, dis[:300]))
+            print("VIOLATION property=%s replay=%s no-failing-input-found" % (prop, path))
+            return 1
+        print("[check] %s: the recorded input no longer fails" % prop)
+        return 0
+    finally:
+        shutil.rmtree(root, ignore_errors=True)
+
+
 def main(argv):
     if not argv or argv[0] not in props.PROPS:
         print(__doc__)
@@ -134,6 +184,10 @@ def main(argv):
             i += 1
     if tier not in ("quick", "thorough"):
         tier = "quick"
+    if replay:
+        rc = run_replay(prop, replay)
+        if rc is not None:
+            return rc
     t0 = time.time()
     P = props.PROPS[prop]
     cdir, binfo = build.ensure_built(log=lambda s: print("[check]", s))
